@@ -528,6 +528,8 @@ def compare(op, a, b):
         a, b, op = b, a, _CMP_SWAP[op]
     if op in ("eq", "ne") and a == b and not isinstance(a, Undef):
         return Const(op == "eq")
+    if op in ("eq", "ne") and not isinstance(a, Const) and not isinstance(b, Const) and _sort_key(b) < _sort_key(a):
+        a, b = b, a          # == and != are symmetric: one canonical argument order
     return Op(op, a, b)
 
 
